@@ -9,6 +9,8 @@ output tag with a safe value must hold exactly that value (or a value a command 
   not-restored        the safe value (or another unexplained value) is still there
   stale:earlier-pause a value captured before an earlier, already undone pause of the same run is applied
   stale:cross-run     a value captured in an earlier run is applied
+  stale:applied-outside-unpause   an output changes, in a tick where no pause begins or ends and no command writes it, to a value
+                      captured before an earlier pause (e.g. at the expiry of a timed Pause the user already undid)
   hw-mismatch         the hardware does not receive the restored value in the tick the Unpause completes
 """
 from __future__ import annotations
@@ -32,7 +34,8 @@ ASSUMPTIONS = [
 TIERS = {"quick": {"examples": 1500, "budget_s": 100}, "thorough": {"examples": 80000, "budget_s": 1500}}
 
 CFG = G.GenCfg(kinds={"set": 6, "slow": 2, "ova": 1, "wait": 3, "pause": 3, "hold": 1, "block": 1, "mark": 2},
-               max_depth=2, max_top=8, max_children=3, thresholds=False, base_first="s", wait_max=1.0)
+               max_depth=2, max_top=8, max_children=3, thresholds=False, base_first="s", wait_max=1.0,
+               pause_durs=(0.1, 0.2, 0.3, 0.5, 0.5, 1.0, 1.5, 2.0, None, None))
 
 
 def oracle(case, recs):
@@ -99,6 +102,23 @@ def oracle(case, recs):
                         viol("hw-mismatch", "tick %d: Unpause completed, tag %s=%r but hardware holds %r" % (r.no, reg, val, r.mem.get(reg)))
                 history.append((run_no, expected))
                 expected = None
+        # A captured value must never be applied outside the Unpause it belongs to: an output that changes in a tick with
+        # no command write, no pause beginning, no unpause completing and no run start/stop, to a value captured before an
+        # earlier pause, is such an application (e.g. the expiry of a timed Pause the user has already undone).
+        if (r.no >= 0 and prev_tags is not None and paused_before == paused_after and not r.safe_calls
+                and not ({"start", "stop"} & set(evk)) and r.flags[0] and r.prev_flags[0] and not r.restart_in_progress
+                and r.state not in ("Stopped", "Restarting") and r.prev_state not in ("Stopped", "Restarting")):
+            for reg, safe in OUT_SAFE.items():
+                val = r.tags[reg]
+                if val == prev_tags[reg] or val in out_sets.get(reg, set()):
+                    continue
+                hit = next(((rn, snap) for (rn, snap) in reversed(history) if val in snap[reg]), None)
+                if hit is not None and val != safe:
+                    viol("stale:applied-outside-unpause" + (":cross-run" if hit[0] != run_no else ""),
+                         "tick %d (%s, no pause began or ended, no command wrote %s): %s changed from %r to %r, the value captured before an "
+                         "earlier, already undone pause" % (r.no, r.state, reg, reg, prev_tags[reg], val))
+                else:
+                    info["unexplained_changes"] = info.get("unexplained_changes", 0) + 1
         if r.raised is not None:
             viol("tick-raised:%s" % type(r.raised).__name__, repr(r.raised))
         prev_tags = r.tags
@@ -122,6 +142,11 @@ def run_shard(col, cfg):
             classes.append("pairs-in-two-runs")
         if info["error_pauses"]:
             classes.append("error-pause")
+        if any(s[0] == "user" and s[1] in ("Unpause", "toggle-pause") for s in case["steps"]) and any(
+                "Pause" in l for l in rinfo["lines"]):
+            classes.append("method-pause+user-unpause-in-schedule")
+        if info.get("unexplained_changes"):
+            classes.append("output-change-without-command-or-pause(counted, not judged)")
         col.record(case, nontrivial, classes=classes, violations=vs,
                    sample={"method": rinfo["lines"], "steps": case["steps"][:30]})
-    hyp_run(S.cases(cfg=CFG, with_boom=True), body, max(1, cfg["examples"] // col.nshards), shard_seed(col.seed, col.shard), col)
+    hyp_run(S.cases(cfg=CFG, with_boom=True, templates=True), body, max(1, cfg["examples"] // col.nshards), shard_seed(col.seed, col.shard), col)
